@@ -68,7 +68,7 @@ CHECKS = {
          'threshold edges, neighbours invalid) and all versions give the same image; unrepresentable => FlipJumpWriteFjmException, '
          'never a raw exception, a refused file or a differently loaded one; a rejected call leaves no trace (the sequence continues after it). Assembled stl programs are compared across versions and '
          'against an independent decoder.',
-         'Trusts the format model R2 (fjv/ref/fjm.py, ~100 lines). A representable input that the writer rejects is counted, not alarmed.',
+         'Trusts the format model R2 (fjv/ref/fjm.py, ~100 lines). A representable input that the writer rejects is counted, not alarmed. Data pools are tiny except for one 18 MiB pool per lzma preset (finding F20).',
          'DESIGN.md section 3 C06'),
  'C10': ('fault_enumeration',
          'crash-point / corruption enumeration: every prefix, every header/table field substitution, payload byte substitutions, appended bytes, all short strings',
